@@ -938,6 +938,9 @@ func runC15(ctx *Ctx) {
 	if ctx.Want(cases + 34) {
 		c15HTTPHost(ctx, cases+34)
 	}
+	if ctx.Want(cases + 35) {
+		c15Status(ctx, cases+35)
+	}
 	for c := 0; c < ctx.N(2, 20); c++ {
 		if ctx.Want(cases + 3 + c) {
 			c15Agent(ctx, cases+3+c, ctx.Sub(cases+3+c))
